@@ -2,7 +2,9 @@ package main
 
 import (
 	"fmt"
+	goruntime "runtime"
 	"sort"
+	gotime "time"
 	"unsafe"
 
 	"github.com/fufuok/cache/verifsim/simrt"
@@ -51,6 +53,7 @@ const (
 	XBulkDelete
 	XPass // no-op step (keeps a task alive)
 	XTick // concurrent phases (C06 only): the clock moves while calls are in flight
+	XGC   // real garbage collections while the container is still referenced (C15)
 )
 
 var opNames = map[OpKind]string{
@@ -63,7 +66,7 @@ var opNames = map[OpKind]string{
 	CCompute: "CCompute", CGetAndDelete: "GetAndDelete", CDelete: "CDelete", CDeleteExpired: "DeleteExpired",
 	CRange: "CRange", CItems: "Items", CClear: "CClear", CCount: "Count",
 	CSetDefaultExpiration: "SetDefaultExpiration", CDefaultExpiration: "DefaultExpiration", CSetCallback: "SetEvictedCallback",
-	XAdvance: "Advance", XBulkInsert: "BulkInsert", XBulkDelete: "BulkDelete", XPass: "Pass", XTick: "Tick",
+	XAdvance: "Advance", XBulkInsert: "BulkInsert", XBulkDelete: "BulkDelete", XPass: "Pass", XTick: "Tick", XGC: "GC",
 }
 
 func (k OpKind) String() string { return opNames[k] }
@@ -101,6 +104,7 @@ const (
 	VisInsertNew              // insert a fresh key per visit
 	VisLoadOther              // read another key
 	VisAll                    // call a mix of methods of the same container
+	VisAdvance                // a slow visitor: the clock moves while the traversal is under way
 )
 
 // Op is one generated operation.
@@ -406,6 +410,10 @@ func (w *World) visitor(r *Rec, isMap bool) func(k int, v int64) bool {
 			if len(r.Visits) <= 8 {
 				w.reenterAll(isMap, k, v)
 			}
+		case VisAdvance:
+			if !isMap && w.sim != nil && w.sim.BackgroundTasks() == 0 {
+				w.sim.Advance(1+r.Op.D%7, false, 0) // only without a janitor: nothing else may run meanwhile
+			}
 		}
 		if r.Op.Stop > 0 && len(r.Visits) >= r.Op.Stop {
 			return false
@@ -499,6 +507,21 @@ func (w *World) ExecCache(op Op, nested bool) *Rec {
 			mt = 3
 		}
 		w.sim.Advance(op.D, true, mt)
+		r.Ret = w.seq()
+		return r
+	}
+	if op.K == XGC {
+		// a cache that is still referenced must keep working across collections
+		// (a finalizer attached to the wrong object would stop the janitor here)
+		r := &Rec{Task: w.curTaskID(), Ix: len(w.recs), Op: op, Call: w.seq(), Now: w.sim.Now()}
+		w.recs = append(w.recs, r)
+		for i := 0; i < 3; i++ {
+			goruntime.GC()
+			gotime.Sleep(150 * gotime.Microsecond)
+		}
+		w.sim.Pump()
+		yieldUser()
+		simrt.Settle()
 		r.Ret = w.seq()
 		return r
 	}
